@@ -26,8 +26,10 @@ import PyamgV.Proofs.ExtC17SafeR3Interior
 import PyamgV.Proofs.ExtRsWholeSafe
 import PyamgV.Proofs.ExtC17R4Color
 import PyamgV.Proofs.ExtC17R4MisK
+import PyamgV.Proofs.ExtC17R4Term
 import PyamgV.Proofs.ExtC17R4Pairwise
 import PyamgV.Proofs.ExtC17R4Cljp
+import PyamgV.Proofs.ExtC17R4CljpTerm
 import PyamgV.Proofs.ExtC17R4Fit
 import PyamgV.Proofs.ExtC17R4Pinv
 import PyamgV.Proofs.ExtC17R4Evo
@@ -291,7 +293,8 @@ driver ops `ext_c17r4_*`)
 
 Any structurally valid `n × n` pattern: symmetric or not, self loops, duplicates, unsorted.  Outer loops whose termination
 depends on the weights run on fuel: the statements are "whenever the run returns, every access was in range" for EVERY
-fuel, and "returns within `max_iters` passes" where the kernel has such a bound. -/
+fuel, "returns within `max_iters` passes" where the kernel has such a bound, and for the two parallel colourings (and CLJP below)
+"returns within `n` rounds" under order-like weight comparisons. -/
 /-- `maximal_independent_set_serial` once more, in the checked style, with the counting facts `vertex_coloring_mis` uses -/
 restate mis_serial_counting_safe := PyamgV.C17R4.misSerial_safe
 /-- one pass of `vertex_coloring_mis` colours at least one node when one is left -/
@@ -316,6 +319,17 @@ restate parallel_coloring_round_safe := PyamgV.C17R4.parRound_safe
 restate vertex_coloring_jones_plassmann_safe := PyamgV.C17R4.vertexColoringJP_safe
 /-- `vertex_coloring_LDF`, `n > 0`, any weights, any number of rounds -/
 restate vertex_coloring_LDF_safe := PyamgV.C17R4.vertexColoringLDF_safe
+/-- progress of one pass of the parallel independent set from a vector without entries `C`: with order-like weight comparisons
+(`WOrd`: `>` irreflexive and transitive, compatible with `==`; true for IEEE doubles, NaN included) the active node that is maximal
+for (weight, index) is marked `C`, so `N ≥ 1`; and the number of negative entries drops by at most `N` -/
+restate mis_parallel_pass_progress := PyamgV.C17R4.mpPass_progress
+/-- one colouring round keeps the invariant with the bookkeeping `n ≤ N + #uncoloured` and colours a node when one is left -/
+restate parallel_coloring_round_progress := PyamgV.C17R4.parRound_progress
+/-- `vertex_coloring_jones_plassmann` TERMINATES within `n` rounds (`n > 0`, any structurally valid pattern, `WOrd` weights) and is
+in range: `ok = true` of the model run with fuel `n` includes termination -/
+restate vertex_coloring_jones_plassmann_total := PyamgV.C17R4.vertexColoringJP_total
+/-- `vertex_coloring_LDF` terminates within `n` rounds and is in range -/
+restate vertex_coloring_LDF_total := PyamgV.C17R4.vertexColoringLDF_total
 /-- `csr_propagate_max` -/
 restate csr_propagate_max_safe := PyamgV.C17R4.propagateMax_safe
 /-- `maximal_independent_set_k_parallel`, any `k`, any weights, any `max_iters`, any number of iterations -/
@@ -339,6 +353,11 @@ restate cljp_pass_safe := PyamgV.C17R4.cjPass_safe
 /-- `cljp_naive_splitting`, both weight initialisations, any number of passes (with colouring `n > 0`: for `n = 0` the kernel
 dereferences `max_element` of an empty vector) -/
 restate cljp_naive_splitting_safe := PyamgV.C17R4.cljp_safe
+/-- one pass of `while(unassigned > 0)` lowers `unassigned`: it never exceeds the number of `U_NODE` entries, and a `U` node of maximal
+weight passes both scans of the selection (weight comparison `>` irreflexive and transitive: `CjOrd`) -/
+restate cljp_pass_progress := PyamgV.C17R4.cjPass_progress
+/-- `cljp_naive_splitting` TERMINATES within `n` passes (fuel `n`) and is in range, `S`, `T` any two structurally valid patterns -/
+restate cljp_naive_splitting_total := PyamgV.C17R4.cljp_total
 /-- the pointer loops `while(p < end){ ..; p += K2; }` of `fit_candidates` terminate within `end - p` iterations (`K2 ≥ 1`) -/
 restate strided_pointer_loop_safe := PyamgV.C17R4.forStep_safe
 /-- the second pointer of the two-pointer loops stays in the row of the first one -/
@@ -468,6 +487,10 @@ def exWOps : C17R4.WOps Int := ⟨fun a b => decide (b < a), fun a b => decide (
 example : ((C17R4.vertexColoringJP exWOps 3 #[0,2,4,6] #[1,2,0,2,0,1] #[7,7,7] #[0,0,0] 4).map (fun r => (r.val.1, r.ok))) = some (#[2,1,0], true) := by decide
 example : ((C17R4.vertexColoringJP exWOps 0 #[0] #[] #[] #[] 1).map (·.ok)) = some false := by decide
 
+/-- E32: the hypothesis `WOrd` of the termination theorems holds for the integers -/
+example : C17R4.WOrd exWOps :=
+  ⟨fun a => by simp [exWOps], fun a b c h1 h2 => by simp [exWOps] at *; omega, fun a b c h1 h2 => by simp [exWOps] at *; omega,
+   fun a b c h1 h2 => by simp [exWOps] at *; omega, fun a b c h1 h2 => by simp [exWOps] at *; omega⟩
 /-- E32: `pairwise_aggregation` on the path 0–1–2 with weights 1: two aggregates, the loop ends inside its fuel; `y` too short faults -/
 def exPwOps : C17R4.PwOps Int := ⟨fun a b => decide (b ≤ a), -1000⟩
 example : (C17R4.pairwiseAgg exPwOps 3 #[0,1,3,4] #[1,0,2,1] #[1,1,1,1] #[7,7,7] #[9,9,9]).ok = true := by decide
